@@ -70,6 +70,9 @@ def run(ctx):
             else:
                 bad.append("chunk %d: a number lies in no range" % i)
             ctx.count("nprefs<=%d" % (1 << max(0, (int(ch["nprefs"]) - 1).bit_length())))
+            # informational (never decisive): does the LITERAL training model (layer TL) with the library's own f64
+            # formulas and first-minimum heap tie-breaking reproduce this table?  exact / ranges (codes differ) / differs
+            ctx.count("literal-training:" + ch.get("lit", "?"))
         dm = r.get("dec_metas", [])
         if len(dm) != len(r["metas"]) or not all(S.meta_equal_mod_single(a, b) for a, b in zip(r["metas"], dm)):
             bad.append("returned ChunkMetadata differs from the parsed one")
